@@ -277,6 +277,7 @@ func ruleC04(p *Prog, r *Res) {
 			stmt   ast.Node
 		}
 		var compiles, lengths, suffixes, prefixes []site
+		helperExpr := map[*ast.CallExpr]string{} // prefix helper call → the expression text passed with the regex
 		inspectShallow(f.Body(), func(x ast.Node) bool {
 			as, ok := x.(*ast.AssignStmt)
 			if !ok || len(as.Rhs) != 1 {
@@ -306,6 +307,39 @@ func ruleC04(p *Prog, r *Res) {
 					recv := types.ExprString(se.X)
 					prefixes = append(prefixes, site{c, strings.TrimSuffix(recv, ".regex"), recv, as})
 				}
+			default:
+				// a helper of the package that asks its *Regexp parameter for the literal prefix (and may test the
+				// expression text it is given alongside): the prefix belongs to the argument passed for that parameter
+				if h := p.FnOfObj(fn); h != nil && h.Pkg == f.Pkg && h.Decl != nil && h.Body() != nil {
+					hinfo := h.Pkg.TypesInfo
+					reIdx, exprIdx, i := -1, -1, 0
+					for _, fld := range h.Decl.Type.Params.List {
+						for _, nm := range fld.Names {
+							o := hinfo.Defs[nm]
+							if o != nil && types.TypeString(o.Type(), nil) == "*rsc.io/binaryregexp.Regexp" {
+								for _, hc := range callsIn(h.Body()) {
+									if hf := p.Callee(h.Pkg, hc); hf != nil && hf.FullName() == "(*rsc.io/binaryregexp.Regexp).LiteralPrefix" {
+										if se, ok := ast.Unparen(hc.Fun).(*ast.SelectorExpr); ok && identObj(hinfo, se.X) == o {
+											reIdx = i
+										}
+									}
+								}
+							}
+							if o != nil && types.TypeString(o.Type(), nil) == "string" {
+								exprIdx = i
+							}
+							i++
+						}
+					}
+					if reIdx >= 0 && reIdx < len(c.Args) {
+						recv := types.ExprString(c.Args[reIdx])
+						st := site{c, strings.TrimSuffix(recv, ".regex"), recv, as}
+						if exprIdx >= 0 && exprIdx < len(c.Args) {
+							helperExpr[c] = types.ExprString(c.Args[exprIdx])
+						}
+						prefixes = append(prefixes, st)
+					}
+				}
 			}
 			_ = info
 			return true
@@ -332,6 +366,9 @@ func ruleC04(p *Prog, r *Res) {
 				continue
 			}
 			ok := l.arg == cs.arg && s.arg == cs.arg && pf.arg == cs.target+".regex" && l.target == cs.target && s.target == cs.target
+			if he, has := helperExpr[pf.call]; has && he != cs.arg {
+				ok = false // the helper tests another expression than the one that was compiled
+			}
 			// the prefix store targets: assignments `<target>.prefix = …` following the LiteralPrefix call
 			var prefixTargets []string
 			limit := f.Body().End()
